@@ -308,3 +308,15 @@ def test_d62_constant_signal_helper_on_a_time_axis_with_an_offset():
                  stg.constant_bp_profile(level=1))
     assert np.allclose(a.data, b.data, atol=1e-12)
     assert a.data[5:].sum() > 0
+
+
+def test_d63_get_level_counts_whole_fine_spectra():
+    from setigen.voltage import level_utils
+    a = _antenna(rate=1e3, npol=1)
+    be = sv.RawVoltageBackend(a, digitizer=sv.RealQuantizer(), filterbank=sv.PolyphaseFilterbank(num_taps=2, num_branches=15),
+                              requantizer=sv.ComplexQuantizer(num_bits=8), start_chan=0, num_chans=1, block_size=12,
+                              blocks_per_file=2, num_subblocks=1)
+    assert be.samples_per_block == 6
+    lv = level_utils.get_level(10.0, be, 1, num_blocks=10, length_mode='num_blocks')
+    want = (10.0 * (2.0 / 2) ** 0.5 / 60 ** 0.5) ** 0.5 / (15 * 1 / 4.0) ** 0.5
+    assert lv == pytest.approx(want, rel=1e-12)
